@@ -78,6 +78,24 @@ Proof.
     donchian_upper, donchian_middle, donchian_lower, willr, stoch_k, typprice, medprice, windowed, seeded, from_first; ind_lp.
 Qed.
 
+(* the money flow index and the Keltner channel (EMA of the close +- multiplier * ATR), added after the first 25 *)
+Theorem mfi_keltner_causal (p : nat) (m : Qc) :
+  causal (mfi p) /\ causal (keltner_upper p m) /\ causal (keltner_middle p) /\ causal (keltner_lower p m).
+Proof.
+  repeat split; unfold mfi; [ind_causal| | |].
+  - apply (causal_map2 _ (fun ks => ema p (map k_c ks)) (atr p)); unfold ema, atr, seeded, true_range; ind_causal.
+  - unfold keltner_middle, ema, seeded. ind_causal.
+  - apply (causal_map2 _ (fun ks => ema p (map k_c ks)) (atr p)); unfold ema, atr, seeded, true_range; ind_causal.
+Qed.
+Theorem mfi_keltner_one_entry_per_candle (p : nat) (m : Qc) :
+  length_preserving (mfi p) /\ length_preserving (keltner_upper p m) /\ length_preserving (keltner_middle p) /\ length_preserving (keltner_lower p m).
+Proof.
+  repeat split; unfold mfi; [ind_lp| | |].
+  - apply (lp_map2 _ (fun ks => ema p (map k_c ks)) (atr p)); unfold ema, atr, seeded, true_range; ind_lp.
+  - unfold keltner_middle, ema, seeded. ind_lp.
+  - apply (lp_map2 _ (fun ks => ema p (map k_c ks)) (atr p)); unfold ema, atr, seeded, true_range; ind_lp.
+Qed.
+
 (* ------------------------------------------------------------------ C14: the shape `slice; res = F(...); res if sequential else res[-1]` *)
 Section Shape.
 Context {A Y : Type}.
